@@ -314,6 +314,17 @@ def versions_total(repo, rep, rule="R15.1"):
     optional = any(isinstance(r_, ast.Return) and (
         r_.value is None or src(r_.value) == "None")
         for r_ in ast.walk(sv.node))
+    # (... and a distribution that has one is reported with it: the normal
+    # exit of the helper is the looked-up version)
+    vr = [r_ for r_ in ast.walk(sv.node) if isinstance(r_, ast.Return)
+          and isinstance(r_.value, ast.Call)
+          and src(r_.value.func).endswith(".version")
+          and r_.value.args and src(r_.value.args[0]) ==
+          sv.node.args.args[0].arg]
+    rep.check(bool(vr), rule, sv.qualname, "the version of an installed "
+              "distribution is what the helper returns (it enters the key: "
+              "a module stored by another release is not reused)",
+              construct="version-looked-up", where=L.where(sv))
     gv = repo.func("chameleon.template.get_package_versions")
     uses = [c for c in ast.walk(gv.node) if isinstance(c, ast.Call)
             and src(c.func) == "safe_get_package_version"]
